@@ -66,6 +66,7 @@ type vmachine struct {
 	pdts     [4]PageDirectoryTable
 	sections []vmSection
 	lastDump string
+	lastCode int // result code of the last op (-1: aborted)
 }
 
 type vmSection struct {
@@ -475,6 +476,10 @@ func (m *vmachine) exec(op []uint64, name string) (string, bool) {
 // do prints the op line and returns false when the case must end (fault / panic).
 func (m *vmachine) do(out *verifWriter, name string, op ...uint64) bool {
 	obs, cont := m.exec(op, name)
+	m.lastCode = -1
+	if cont {
+		fmt.Sscanf(obs, "%d", &m.lastCode)
+	}
 	out.printf("%s", name)
 	for _, x := range op {
 		out.printf(" %d", x)
